@@ -274,6 +274,12 @@ def run_case(ctx, repo, case):
     try:
         p = repo.tp(case["p"])
         d = repo.dur(case["d"])
+        if "weeks" in case["d"]:
+            # an unrelated sum with an equal week duration, somewhere else in
+            # the program, beforehand
+            repo.dur(case["d"]) + repo.Duration(days=3, hours=5)
+            repo.Duration(hours=1) - repo.dur(case["d"])
+            ctx.ev("bystander-week-sum")
         op = case["op"]
         if op == "add":
             p + d
@@ -369,6 +375,17 @@ def workload(ctx, repo):
         p = gen.rand_tp(rng, mode, integral=integral,
                         year=gen.huge_year(rng) if k % 40 == 7 else None)
         d = gen.rand_exact_dur(rng, integral=integral, big=(k % 10 == 0))
+        if k % 60 == 13:
+            # a time part of years' worth of hours or minutes beside a
+            # decimal fraction of a second, on a point that stores whole
+            # hours and minutes (a decimal-hour field of 1e7 cannot hold a
+            # microsecond)
+            p = gen.rand_tp(rng, mode, form="hms", integral=True)
+            d = rng.choice(({"hours": 10 ** 7, "seconds": 0.3},
+                            {"minutes": -3 * 10 ** 8, "seconds": 0.7},
+                            {"hours": -4000000, "minutes": 7,
+                             "seconds": 12.1},
+                            {"hours": 3 * 10 ** 6, "seconds": 59.9}))
         case = {"op": rng.choice(("add", "sub", "radd")), "mode": mode,
                 "p": p, "d": d}
         ctx.case = case
